@@ -1751,3 +1751,71 @@ Proof.
   unfold subset. apply forallb_forall. intros x X. apply mem_in in X.
   apply Hd. rewrite E. apply ok_accepted; auto.
 Qed.
+
+(* ---------- the deterministic drivers only compose steps ---------- *)
+
+Local Opaque FUEL.
+
+Definition steps (s s' : st) : Prop := exists ls, s' = run s ls.
+
+Lemma steps_refl s : steps s s.
+Proof. exists []. auto. Qed.
+Lemma steps_trans a b c : steps a b -> steps b c -> steps a c.
+Proof. intros [l1 ->] [l2 ->]. exists (l1 ++ l2). unfold run. rewrite fold_left_app. auto. Qed.
+Lemma steps_step s l : steps s (step s l).
+Proof. exists [l]. auto. Qed.
+
+Lemma steps_drive1 s k : steps s (drive1 s k).
+Proof. unfold drive1. destruct (leaf 64 s k); try apply steps_step. apply steps_refl. Qed.
+
+Lemma steps_drive fuel park s k : steps s (drive fuel park s k).
+Proof.
+  revert s; induction fuel as [|f IH]; intros s; simpl; [apply steps_refl|].
+  destruct (child_done s k); [apply steps_refl|].
+  destruct (park && at_gate s k); [apply steps_refl|].
+  eapply steps_trans; [apply steps_drive1|apply IH].
+Qed.
+
+Lemma steps_fold_drive ps s : steps s (fold_left (fun x i => drive FUEL false x (KS i)) ps s).
+Proof.
+  revert s; induction ps as [|i t IH]; intros s; simpl; [apply steps_refl|].
+  eapply steps_trans; [apply steps_drive|apply IH].
+Qed.
+
+Lemma steps_consume fuel ps s : steps s (consume fuel ps s).
+Proof.
+  revert s; induction fuel as [|f IH]; intros s; [apply steps_refl|].
+  cbn [consume].
+  destruct (cons s) as [|i todo|i k todo|r|r].
+  - destruct (cons (step s LRecv)); try apply (steps_step s LRecv);
+      (eapply steps_trans; [apply (steps_step s LRecv)|apply IH]).
+  - eapply steps_trans; [apply (steps_step s LH)|apply IH].
+  - destruct (child_done s k); (eapply steps_trans; [|apply IH]); [apply (steps_step s LH)|apply steps_drive1].
+  - eapply steps_trans; [|apply IH].
+    eapply steps_trans; [apply (steps_step s LCStopping)|].
+    eapply steps_trans; [|eapply steps_trans; [apply (steps_step _ LCClose)|apply (steps_step _ LFinish)]].
+    destruct (post_stop_runs r); [apply steps_fold_drive|apply steps_refl].
+  - apply steps_refl.
+Qed.
+
+Lemma steps_exec_act ps s st0 a : steps s (fst (exec_act ps (s, st0) a)).
+Proof.
+  destruct a as [c|c|n|]; cbn [exec_act].
+  - destruct (do_call s c) as [k s'] eqn:E. cbn [fst].
+    eapply steps_trans; [|apply steps_drive]. replace s' with (step s (LSpawn c)) by (simpl; rewrite E; auto).
+    apply steps_step.
+  - destruct (do_call s c) as [k s'] eqn:E. cbn [fst].
+    eapply steps_trans; [|apply steps_drive]. replace s' with (step s (LSpawn c)) by (simpl; rewrite E; auto).
+    apply steps_step.
+  - destruct (nth_error st0 n); cbn [fst]; [apply steps_drive|apply steps_refl].
+  - apply steps_consume.
+Qed.
+
+Theorem exec_reachable ps acts : reachable (exec_ps ps acts).
+Proof.
+  unfold exec_ps, reachable.
+  assert (G : forall xs, steps init (fst xs) -> steps init (fst (fold_left (exec_act ps) acts xs))).
+  { induction acts as [|a t IH]; intros xs H; simpl; auto. apply IH.
+    destruct xs as [s st0]. eapply steps_trans; [exact H|apply steps_exec_act]. }
+  apply (G (init, [])). apply steps_refl.
+Qed.
